@@ -70,6 +70,9 @@ func (r *recorder) sink(seq int64, ev string, kv []interface{}) {
 	for i := 0; i+1 < len(kv); i += 2 {
 		e[fmt.Sprint(kv[i])] = jsonable(kv[i+1])
 	}
+	if rid, ok := e["rid"].(string); ok {
+		e["rid"] = shortRid(rid)
+	}
 	r.mu.Lock()
 	r.evs = append(r.evs, e)
 	r.mu.Unlock()
@@ -169,6 +172,7 @@ func buildWorld(dir, auditKind, amqp string, cacheSeconds int, rateLimit float64
 }
 
 type reqSpec struct {
+	long    bool
 	rid     string
 	key     keySpec
 	sigtype string
@@ -189,7 +193,7 @@ func (w *world) randomReq(rnd *rand.Rand, n int) reqSpec {
 	st := types[rnd.Intn(len(types))]
 	dg := []string{"sha256", "sha384", "sha512"}[rnd.Intn(3)]
 	ext := map[string]string{"jar": "jar", "pe-coff": "dll", "ps": "ps1", "pgp": "txt"}[st]
-	return reqSpec{rid: fmt.Sprintf("req-%04d-%s.%s", n, st, ext), key: k, sigtype: st, digest: dg, fixture: fixtures[st]}
+	return reqSpec{long: n%3 == 2, rid: fmt.Sprintf("req-%04d-%s.%s", n, st, ext), key: k, sigtype: st, digest: dg, fixture: fixtures[st]}
 }
 
 func leafOf(pemText string) *x509.Certificate {
@@ -199,6 +203,13 @@ func leafOf(pemText string) *x509.Certificate {
 		panic(err)
 	}
 	return c
+}
+
+func shortRid(s string) string {
+	if i := strings.IndexByte(s, '~'); i >= 0 {
+		return s[:i]
+	}
+	return s
 }
 
 var clientMu sync.Mutex
@@ -232,7 +243,12 @@ func (w *world) doRequest(base string, hc *http.Client, rs reqSpec, verify bool)
 	hash := x509tools.HashByName(rs.digest)
 	q := url.Values{}
 	q.Set("key", rs.key.name)
-	q.Set("filename", rs.rid)
+	wireName := rs.rid
+	if rs.long {
+		// a ~6 KiB file name makes the audit record larger than any 4 KiB buffer in the way
+		wireName = rs.rid + "~" + strings.Repeat("x", 6000)
+	}
+	q.Set("filename", wireName)
 	q.Set("sigtype", rs.sigtype)
 	q.Set("digest", rs.digest)
 	if rs.sigtype == "pgp" {
@@ -362,7 +378,7 @@ func auditRecords(path string) (recs []event, bad []string) {
 			bad = append(bad, fmt.Sprintf("line %d is not one JSON object: %.80q", i+1, line))
 			continue
 		}
-		recs = append(recs, event{"ev": "Record", "sink": "file", "rid": m["client.filename"], "key": m["sig.keyname"],
+		recs = append(recs, event{"ev": "Record", "sink": "file", "rid": shortRid(fmt.Sprint(m["client.filename"])), "key": m["sig.keyname"],
 			"sigtype": m["sig.type"], "digest": strings.ToLower(strings.ReplaceAll(fmt.Sprint(m["sig.hash"]), "-", "")),
 			"client": m["client.name"], "ip": m["client.ip"], "x509": m["sig.x509.fingerprint"]})
 	}
@@ -439,7 +455,10 @@ func Main(args []string) {
 		if err != nil {
 			panic(err)
 		}
-		go dmn.Serve()
+		go func() {
+			dmn.Serve() // the serve command exits when this returns: it must outlast every in-flight request
+			verifhook.Emit("ServeReturned")
+		}()
 		base = "http://" + listen
 		closeFn = dmn.Close
 		for i := 0; i < 200; i++ {
@@ -534,7 +553,7 @@ func Main(args []string) {
 		switch e["ev"] {
 		case "Request", "SignDone", "AuditAmqp", "AuditFile", "ResponseWrite", "Response":
 			trace = append(trace, e)
-		case "ShutdownBegin", "ShutdownDrained", "ShutdownEnd":
+		case "ShutdownBegin", "ShutdownDrained", "ShutdownEnd", "ServeReturned":
 			trace = append(trace, e)
 		}
 	}
@@ -565,7 +584,7 @@ func Main(args []string) {
 		// be processed or dropped by net/http; they are not "in flight" at shutdown.
 		recv := map[string]int64{}
 		answered := map[string]int{}
-		var beginSeq, drainedSeq, lastRespWrite int64
+		var beginSeq, drainedSeq, lastRespWrite, serveRet int64
 		for _, e := range evs {
 			switch e["ev"] {
 			case "SignRecv":
@@ -578,6 +597,8 @@ func Main(args []string) {
 				beginSeq = e["seq"].(int64)
 			case "ShutdownDrained":
 				drainedSeq = e["seq"].(int64)
+			case "ServeReturned":
+				serveRet = e["seq"].(int64)
 			}
 		}
 		inflight := 0
@@ -589,6 +610,9 @@ func Main(args []string) {
 					inflight++
 				}
 			}
+		}
+		if serveRet != 0 && (serveRet < lastRespWrite || (drainedSeq != 0 && serveRet < drainedSeq)) {
+			r.Fail(map[string]string{"engine": "signsrv", "kind": "serve-returned-early"}, nil, "Daemon.Serve() returned (the server process would exit) before in-flight requests had been answered / Shutdown had drained")
 		}
 		r.Extra["completed_across_shutdown"] = inflight
 		if drainedSeq != 0 && lastRespWrite > drainedSeq {
